@@ -53,6 +53,7 @@ type Result struct {
 	Plan      *Plan
 	Hist      []simrt.Rec // append (execution) order
 	Canon     []simrt.Rec // canonical order
+	StalledNs int64       // total virtual time the driver let pass while goroutines were parked (slow node)
 	Faults    map[string]int
 	Probes    map[string]int
 	Steps     int64
@@ -94,6 +95,11 @@ type recLogger struct {
 func (l recLogger) add(lv, f string, a ...interface{}) {
 	msg := fmt.Sprintf(f, a...)
 	s := l.s
+	// a client's own state changes are part of the history (C33 judges pings against them)
+	if strings.HasPrefix(l.tag, "cl:") && strings.HasPrefix(msg, "State changed to ") {
+		name := strings.SplitN(l.tag[3:], "/", 2)[0]
+		s.W.Log("state:"+name, "state", nil, strings.Trim(strings.TrimPrefix(msg, "State changed to "), "\"."), 0)
+	}
 	s.fmu.Lock()
 	if len(s.logRing) >= 400 {
 		s.logRing = s.logRing[200:]
@@ -284,6 +290,10 @@ func (s *Sim) finish(res *Result) {
 	if w.Stalls > 0 {
 		s.faults["stall"] += int(w.Stalls)
 	}
+	if w.Overlaps > 0 {
+		s.faults["event-overtakes-parked-goroutines"] += int(w.Overlaps)
+	}
+	res.StalledNs = int64(w.StalledFor)
 	res.MutexWaiters = w.MutexWaiters()
 	n, sample := simrt.Census("github.com/energomonitor/bisquitt/")
 	res.LeakedN, res.Leaked = n, sample
